@@ -573,8 +573,9 @@ def execute(case):
                     if x0k == 'zero_real':
                         if not (pA['complex'] or bc):
                             continue
-                        judged = False
-                        tagx = 'real_x0_complex_problem'
+                        # a real-typed initial guess (e.g. zeros, or the previous real solution) for a complex problem
+                        # is "a given initial guess" of the statement: judged (unless the point is unsupported anyway)
+                        tagx = tagx or ''
                     b = layout(b, rn)
                     b_in = b.copy(order='K')
                     x0 = make_x0(x0k, Aref, b, tr, t)
@@ -597,7 +598,9 @@ def execute(case):
                             continue
                         nsolve += 1
                         nchecks += 1
-                        if zc and is_cg:
+                        if x0k == 'zero_real' and type(e).__name__ == 'UFuncTypeError':
+                            sig = {'solver': lab, 'x0': 'real_guess_for_complex_problem', 'exc': type(e).__name__}
+                        elif zc and is_cg:
                             sig = {'solver': lab, 'rhs': 'zero_column', 'exc': type(e).__name__}
                         else:
                             sig = dict(base, stage='solve', exc=type(e).__name__, where=where_raised(e),
